@@ -246,6 +246,8 @@ def local_check(assertions, logic, timeout_ms, flags=()):
             return "sat", s.model()
         if r == z3.unsat:
             return "unsat", None
+    if timeout_ms < 1000:
+        return "unknown", None       # tiny budgets: no process spawning
     # CLI race with the full budget
     import tempfile
     lg = cli_logic(set(flags))
